@@ -544,7 +544,7 @@ func runSW3(c *load.Ctx, r *report.RuleResult) {
 	n := 0
 	doneOnce := map[string]bool{}
 	for _, fn := range c.ModuleFunctions() {
-		if load.FuncPkgRel(fn) != "internal/sync" || fn.Name() != "Do" || fn.Signature.Recv() == nil || fn.Parent() != nil || (fn.Synthetic != "" && !strings.HasPrefix(fn.Synthetic, "instance")) {
+		if load.FuncPkgRel(fn) != "internal/sync" || (fn.Name() != "Do" && !strings.HasPrefix(fn.Name(), "Do[")) || fn.Signature.Recv() == nil || fn.Parent() != nil || (fn.Synthetic != "" && !strings.HasPrefix(fn.Synthetic, "instance")) {
 			continue
 		}
 		kf := fn
